@@ -39,6 +39,7 @@ MIN_REACH = {
     "sync_before_delete_observed": {"quick": 12, "thorough": 120},
     "reaps_by_an_object_older_than_the_last_sow": {"quick": 30, "thorough": 100},
     "unsynced_farmer_reaps": {"quick": 15, "thorough": 50},
+    "harvesters_with_memory_before_the_other_session_wrote": {"quick": 20, "thorough": 80},
     "reaps_of_crops_with_surplus_falsy_results": {"quick": 40, "thorough": 150},
 }
 TIME_BUDGET = {"quick": 400, "thorough": 3400}
@@ -279,6 +280,11 @@ def run_case(ctx, case):
                 elif kind == "harvester":
                     data_file = os.path.join(tmp, "hdata.h5")
                     farmer = xyzpy.Harvester(runner, data_name=data_file)
+                    if case["idx"] % 3 == 0 and fail != "wrong_descr":
+                        # the harvester already holds its dataset in memory (it harvested a point itself) BEFORE the other
+                        # session writes: conflicts must be judged against the file as it is at reap time
+                        farmer.harvest_combos({"a": [200]}, verbosity=0)
+                        ctx.count("harvesters_with_memory_before_the_other_session_wrote")
                     if fail == "conflict" or case["idx"] % 2:
                         # pre-existing data: conflicting version at a=1 (conflict) or disjoint coordinates (a=100)
                         pre = xyzpy.Harvester(xyzpy.Runner(probe.Probe(pkind, name="dprobe"), var_names, resources={"version": 0 if fail == "conflict" else 1}),
